@@ -478,7 +478,64 @@ def check_moveseq(ctx, prog):
         ctx.ok("R8.moveseq", "move_fixed_vars", "%d layouts: every byte of every old fixed-size variable ends at its new begin" % nconf)
 
 
+def check_abort(ctx):
+    """abort: no header / data writer is reachable, and a file being created is unlinked"""
+    from callgraph import CallGraph
+    prog = ctx.program(groups=["lib"])
+    fn = ctx.need_fn(prog, "ncmpio_abort")
+    cg = CallGraph(prog)
+    writers = {"write_NC", "ncmpio_write_header", "ncmpio_hdr_put_NC", "ncmpio_fill_vars", "move_file_block",
+               "MPI_File_write_at", "MPI_File_write_at_all", "MPI_File_write_all", "MPI_File_write", "MPI_File_set_size"}
+    # the numrecs write-back of an independent-mode data section is the one permitted writer (ncmpio_write_numrecs)
+    reach = cg.reach(["ncmpio_abort"])
+    ctx.require(len(reach) >= 8, "ncmpio_abort: call graph too small (%d functions)" % len(reach))
+    offenders = []
+    for name in sorted(reach):
+        for f in prog.fns(name):
+            if name == "ncmpio_write_numrecs":
+                continue
+            for _, _, c, names in cg.calls.get(f, []):
+                for n in names:
+                    if n in writers and not n.startswith("ncmpio_write_numrecs"):
+                        offenders.append((name, n, c.get("l")))
+    offenders = [o for o in offenders if o[0] != "ncmpio_write_numrecs"]
+    if offenders:
+        o = offenders[0]
+        ctx.fail("R6.abort", fn.name, "%s->%s" % (o[0], o[1]), "ncmpi_abort can reach %s() through %s(): an aborted "
+                 "redefinition must leave the file untouched" % (o[1], o[0]), fn=fn, line=fn.line, inst="no-writer")
+    else:
+        ctx.ok("R6.abort", "no-writer", "%d functions reachable from ncmpio_abort; none writes the header or variable data "
+               "(only ncmpio_write_numrecs, the independent-mode record count)" % len(reach))
+    # unlink flag: the argument of ncmpio_close_files is the NC_IsNew value sampled on entry
+    calls = patterns.call_sites(fn, lambda n: n == "ncmpio_close_files")
+    ctx.require(len(calls) == 1, "ncmpio_abort: expected one ncmpio_close_files call")
+    b, i, c = calls[0]
+    arg = strip(c["args"][1])
+    src = None
+    for bb, ii, e in fn.elements():
+        if e.get("k") == "asg" and lvalue_key(e["a"]) == lvalue_key(arg):
+            if cfg.pos_dominates(fn, (bb.id, ii), (b.id, i)):
+                src = e
+    isnew = src is not None and any("NC_MODE_CREATE" in (x.get("m") or []) or x.get("cv") == 0x1 << 1 for x in walk(src["b"], into_pre=True)) \
+        or (src is not None and "NC_MODE_CREATE" in show(src["b"]))
+    cf = ctx.need_fn(prog, "ncmpio_close_files")
+    dels = patterns.call_sites(cf, lambda n: n == "MPI_File_delete")
+    guarded = False
+    for db, di, dc in dels:
+        for d in cfg.dominators(cf).get(db.id, ()):
+            cnd = cf.blocks[d].cond
+            if cnd is not None and canon(cnd) == "doUnlink":
+                guarded = True
+    if src is not None and isnew and dels and guarded:
+        ctx.ok("R6.abort", "unlink-new", "doUnlink = NC_IsNew(ncp) reaches ncmpio_close_files, which deletes the file under it")
+    else:
+        ctx.fail("R6.abort", fn.name, "unlink", "aborting a file that is being created no longer removes it (flag source: %s, "
+                 "delete call: %s, guarded by the flag: %s)" % (show(src["b"])[:60] if src else None, bool(dels), guarded),
+                 fn=fn, line=fn.line, inst="unlink-new")
+
+
 def run(ctx):
+    ctx.rule("R6.abort", "ncmpio_abort reaches no header/data writer; a file under creation is deleted")
     ctx.rule("R6.order", "data moves precede the header write and the fill; record section moves before fixed-size variables")
     ctx.rule("R6.movecond", "decision table of the move triggers in ncmpio__enddef")
     ctx.rule("R6.geomsrc", "begin_rec / begin_var mirror the file's own offsets after open")
@@ -495,3 +552,4 @@ def run(ctx):
     check_noshrink(ctx, prog)
     check_movechunks(ctx, prog)
     check_moveseq(ctx, prog)
+    check_abort(ctx)
